@@ -20,6 +20,12 @@ def rnd_scalar(r):
                      [], {}, [1], {"t": 0}])
 
 
+# bodies that no longer parse (an outdated or damaged store): cut inside loops, blocks, calls, templates, lists
+BROKEN_BODY = ["while 1 { if 1 { break } if 1 { break }", "if 1 { 2 } else {", "[1, 2", "func g() { 1 } g(", "`a{", "1 ? 2 : ", "x = (", "while 1 { break } }",
+               "i=0; while i<3 { i=i+1; if i==2 { continue }", "a+", "x +", "1; 2; (", "if a { return 1 }; while a { a = a - 1; if a { break }", "d6 + 2d", "{'k': 1, ", "a[1",
+               "while a { while 1 { if a { break } if 1 { break }", "`{% if 1 { 2 %}`", "f(1,", "return"]
+
+
 def well_typed(r, depth):
     t = r.choice([0, 0, 1, 2, 2, 4, 5, 6, 6, 7, 7, 8, 9, 10]) if depth > 0 else r.choice([0, 1, 2, 4])
     if t == 0:
@@ -31,7 +37,7 @@ def well_typed(r, depth):
     if t == 4:
         return {"t": 4}
     if t == 5:
-        d = {"expr": r.choice(["1+1", "d6", "this.n*2", "", "x +"])}
+        d = {"expr": r.choice(["1+1", "d6", "this.n*2", "", "x +"] + ([r.choice(BROKEN_BODY)] if r.random() < 0.5 else []))}
         if r.random() < 0.5:
             d["attrs"] = {r.choice(KEYS): well_typed(r, depth - 1) for _ in range(r.randint(0, 2))}
         return {"t": 5, "v": d}
@@ -40,7 +46,7 @@ def well_typed(r, depth):
     if t == 7:
         return {"t": 7, "v": {"dict": {r.choice(KEYS): well_typed(r, depth - 1) for _ in range(r.randint(0, 3))}}}
     if t == 8:
-        return {"t": 8, "v": {"expr": r.choice(["a+1", "1", "a+", "return 5"]), "name": r.choice(["f", "", "力"]),
+        return {"t": 8, "v": {"expr": r.choice(["a+1", "1", "a+", "return 5"] + ([r.choice(BROKEN_BODY)] * 2 if r.random() < 0.5 else [])), "name": r.choice(["f", "", "力"]),
                               "params": r.choice([[], ["a"], ["a", "b"]])}}
     if t == 9:
         return {"t": 9, "v": {"name": r.choice(NAMES[:7])}}
@@ -174,6 +180,13 @@ def main(tier):
                 pass
         maps += ["null", "[]", "{\"a\":null}", "5"]
         run.diff_stream("jsonmapm", [f"jsonmapm {hx(d)}" for d in maps], go_timeout=300)
+        # stored functions / computed values whose body no longer parses, every cut, every arity the battery calls with
+        import json as _json
+        for body in BROKEN_BODY:
+            for params in ([], ["a"], ["a", "b"]):
+                docs.append(_json.dumps({"t": 8, "v": {"expr": body, "name": "f", "params": params}}, ensure_ascii=False))
+            docs.append(_json.dumps({"t": 5, "v": {"expr": body}}, ensure_ascii=False))
+            docs.append(_json.dumps({"t": 7, "v": {"dict": {"a": {"t": 8, "v": {"expr": body, "name": "a", "params": ["a"]}}}}}, ensure_ascii=False))
         # battery on the implementation
         out = run.go_only("battery", [f"jsondec {hx(d)}" for d in docs + dupdocs], go_timeout=600, line_timeout=60)
         for d, (ln, g) in zip(docs + dupdocs, out):
